@@ -263,6 +263,85 @@ func runC04(env *Env) {
 		}
 		in.Close()
 	}
+	// CURRENT values: a token passes one exclusive gateway, waits at a task, and reaches a second one; in between the
+	// variable the second gateway reads is changed — by the task result of a token in a parallel branch, or by the host
+	// through the locator; the second gateway decides on the values at the time the token reaches it
+	for _, how := range []string{"other token's task result", "host SetVariable", "own task result"} {
+		for _, newMode := range []bool{true, false} {
+			if rep.Saturated() {
+				break
+			}
+			cs := fmt.Sprintf("two exclusive gateways on one token's path; the second one's variable is set to %v by: %s", newMode, how)
+			env.Current(cs)
+			p := &Prog{}
+			p.Node("start", "start")
+			p.Node("par", "F")
+			p.Flow("start", "F", "")
+			g1 := p.Node("xor", "G1")
+			p.Flow("F", "G1", "")
+			p.Node("task", "W")
+			p.Flow("G1", "W", "a")
+			p.Node("task", "N")
+			g1.Default = p.Flow("G1", "N", "").ID
+			p.Node("end", "eN")
+			p.Flow("N", "eN", "")
+			g2 := p.Node("xor", "G2")
+			p.Flow("W", "G2", "")
+			p.Node("task", "Y")
+			p.Node("task", "Z")
+			p.Flow("G2", "Y", "m")
+			g2.Default = p.Flow("G2", "Z", "").ID
+			p.Node("end", "eY")
+			p.Node("end", "eZ")
+			p.Flow("Y", "eY", "")
+			p.Flow("Z", "eZ", "")
+			pn := p.Node("task", "P")
+			pn.Results = []string{"m"}
+			p.Flow("F", "P", "")
+			p.Node("end", "eP")
+			p.Flow("P", "eP", "")
+			for _, n := range p.Nodes {
+				if n.ID == "W" {
+					n.Results = []string{"m"}
+				}
+			}
+			defs, err := ParseDefs(p.XML(""))
+			must(err)
+			in, err := StartInst(defs, InstOpt{Vars: map[string]any{"a": true, "m": !newMode}})
+			must(err)
+			rep.Evaluations++
+			rep.Nontrivial++
+			rep.Count("current_values")
+			ok := in.WaitUntil(tmoStep, func(l []Ev) bool { return countEv(l, "task", "W") >= 1 && countEv(l, "task", "P") >= 1 })
+			if !ok {
+				rep.Violate("C04-current-values", cs, "W and P were not both requested; log: "+logString(in.Log()))
+				in.Close()
+				continue
+			}
+			switch how {
+			case "other token's task result":
+				in.Answer("P", tmoStep, bpmn.DoWithResults(map[string]any{"m": newMode}))
+				in.WaitUntil(tmoStep, func(l []Ev) bool { return countEv(l, "complete", "eP") >= 1 })
+				in.Answer("W", tmoStep)
+			case "host SetVariable":
+				in.P.Locator().SetVariable("m", newMode)
+				in.Answer("W", tmoStep)
+			default:
+				in.Answer("W", tmoStep, bpmn.DoWithResults(map[string]any{"m": newMode}))
+			}
+			want := "Z"
+			if newMode {
+				want = "Y"
+			}
+			in.WaitUntil(tmoStep, func(l []Ev) bool { return countEv(l, "task", "Y")+countEv(l, "task", "Z") >= 1 })
+			time.Sleep(5 * time.Millisecond)
+			l := in.Log()
+			if countEv(l, "task", want) != 1 || countEv(l, "task", "Y")+countEv(l, "task", "Z") != 1 || countEv(l, "error", "*") != 0 {
+				rep.Violate("C04-current-values", cs, fmt.Sprintf("the second gateway must route the token to %s only; log: %s", want, logString(l)))
+			}
+			in.Close()
+		}
+	}
 	env.WriteReport(rep)
 }
 
